@@ -1,6 +1,7 @@
 package scen
 
 import (
+	"os"
 	"regexp"
 	"runtime"
 	"sort"
@@ -146,6 +147,14 @@ func Await(ch <-chan struct{}, bound time.Duration) (WaitResult, string) {
 		return Late, ""
 	}
 	d2 := Stacks()
+	if f := os.Getenv("VERIF_DUMP"); f != "" {
+		var sb strings.Builder
+		for _, g := range d2 {
+			sb.WriteString(g.Raw)
+			sb.WriteString("\n\n")
+		}
+		_ = os.WriteFile(f, []byte(sb.String()), 0o644)
+	}
 	atomic.AddInt32(&hangsConfirmed, 1)
 	return Hung, Signature(d1, d2)
 }
